@@ -52,7 +52,9 @@ static bool brute(const std::vector<VarCfg>& vs, const std::vector<Con>& cs) {
     }
 }
 
-static int runSolver(const std::vector<VarCfg>& vs, const std::vector<Con>& cs, int pref, std::vector<int>& values) {
+/** split >= 0: the solver object has a history - the first `split` constraints are added, solve() is called once (result discarded), then the rest is
+ *  added and solve() is called again; the second answer must be that of the whole system. */
+static int runSolver(const std::vector<VarCfg>& vs, const std::vector<Con>& cs, int pref, std::vector<int>& values, int split = -1) {
     std::ostringstream sink;
     CspSolver s(sink, true);
     for (auto& v : vs) {
@@ -60,7 +62,9 @@ static int runSolver(const std::vector<VarCfg>& vs, const std::vector<Con>& cs, 
         if (v.parity == 1) s.makeEven(id); if (v.parity == 2) s.makeOdd(id);
         if (v.tKind == 1) s.addMinVal(id, v.tVal); if (v.tKind == 2) s.addMaxVal(id, v.tVal);
     }
+    int k = 0;
     for (auto& c : cs) {
+        if (k++ == split) { std::vector<int> first; s.solve(first); }
         if (c.op == 2) s.addEq(c.i, c.j, c.c);
         else s.addIneq(c.i, c.op == 0 ? CspSolver::LE : CspSolver::GE, c.j, c.c);
     }
@@ -83,13 +87,15 @@ static void checkSystem(const std::vector<VarCfg>& vs, const std::vector<Con>& c
     R.count(sat ? "satisfiable" : "unsatisfiable");
     unsigned sel = (unsigned)((id * 2654435761ULL) >> 20) & 7;  // all four orders on 1/8 of the systems, one fixed order otherwise
     int prefFrom = sel == 0 ? 0 : (int)(sel & 3), prefTo = sel == 0 ? 3 : (int)(sel & 3);
-    for (int pref = prefFrom; pref <= prefTo; pref++) {
+    for (int pref = prefFrom; pref <= prefTo; pref++) for (int split = -1; split < (int)cs.size(); split = (split < 0 ? (cs.empty() ? 1 : (int)cs.size() - 1) : (int)cs.size())) {
+        // split -1: build, solve once; split = #constraints - 1: the last constraint arrives after a first solve() of the same object
         if ((id & 0xfff) == 0) W->crumb(sysStr(vs, cs, pref));
         std::vector<int> values;
-        int r = runSolver(vs, cs, pref, values);
-        R.count("transitions");
+        int r = runSolver(vs, cs, pref, values, split);
+        R.count("transitions"); if (split >= 0) R.count("second_solves");
         auto rep = [&]() { return "{\"kind\":\"input\",\"cpart\":\"" + curPart + "\",\"id\":" + std::to_string(id) + ",\"system\":\"" + jsonEsc(sysStr(vs, cs, pref)) + "\"}"; };
-        if ((r != 0) != sat) { R.violation(sat ? "solver-says-unsolvable-but-solution-exists" : "solver-says-solvable-but-none-exists", sysStr(vs, cs, pref), rep()); continue; }
+        std::string hist = split >= 0 ? " (last constraint added after a first solve)" : "";
+        if ((r != 0) != sat) { R.violation(sat ? "solver-says-unsolvable-but-solution-exists" : "solver-says-solvable-but-none-exists", sysStr(vs, cs, pref) + hist, rep()); continue; }
         if (r) {
             if (values.size() != vs.size()) { R.violation("assignment-size", sysStr(vs, cs, pref), rep()); continue; }
             int val[3] = {0, 0, 0}; bool ok = true;
